@@ -26,6 +26,8 @@ cp "$src/seed_demo/patch.diff" seeded/$sid/patch.diff
 cp "$src/seed_demo/run.sh" seeded/$sid/demo_run.sh
 cp "$src/seed_demo/README.md" seeded/$sid/demo_README.md 2>/dev/null
 for f in "$src"/seed_demo/*; do case "$(basename $f)" in patch.diff|run.sh|README.md) ;; *) cp -r "$f" seeded/$sid/ 2>/dev/null;; esac; done
+# Go files of a demonstration must not become packages of this module
+for g in $(find seeded/$sid -name "*.go"); do mv "$g" "$g.txt"; done
 results=""
 for id in "$@"; do
   mkdir -p "$W/ev"
